@@ -51,6 +51,9 @@ type Case struct {
 	// cli: the case is rebuilt from these
 	Cli      *cliCase      `json:"cli,omitempty"`
 	CliNames *cliNamesCase `json:"cli_names,omitempty"`
+	// funcs / cli, shared-text family: the case is rebuilt from these
+	Shared    *sharedCase    `json:"shared_text,omitempty"`
+	CliShared *cliSharedCase `json:"cli_shared_text,omitempty"`
 }
 
 func q(s string) string { return strconv.Quote(s) }
@@ -185,10 +188,17 @@ func worker(w *runner.W) {
 		e.namesPhase(&unit)
 		e.cliNamesPhase(&unit)
 	}
+	if only == "shared" || only == "shared-inproc" { // diagnosis: the shared-text family alone (in-process and cli)
+		e.sharedPhase(&unit)
+	}
+	if only == "shared" || only == "shared-cli" {
+		e.cliSharedPhase(&unit)
+	}
 	if only == "" || only == "funcs" || only == "cli" {
 		e.cliPhase(&unit)
 		e.cliPipePhase(&unit)
 		e.cliNamesPhase(&unit)
+		e.cliSharedPhase(&unit)
 	}
 	if only == "" || only == "opt" || strings.Contains(only, "/") {
 		e.optPhase(&unit, only)
@@ -241,7 +251,7 @@ func main() {
 				"(all-empty = what the optimiser probes with, numeric, huge, odd bytes, two real SliceSpaceExpressionContexts; fewer for constant-only programs, see exprgen.Plan); oracle: byte-equal results. " +
 				"(i-time) " + strconv.Itoa(len(timeTemplates())) + " templates around {time live}/{time delta} (bare, nested in helpers, behind a funcs-file function) compiled, then evaluated after the wall clock advanced by >= 2 s: live must lie between the clock readings taken around the evaluation, delta between the elapsed bounds (a frozen value cannot). " +
 				"(ii) funcs files: " + funcsRule(tier) + ". " +
-				"(ii-cli) funcs files through the start-up sequence of " + cliRule(tier) + "; " + cliPipeRule(tier) + "; " + cliNamesRule(tier) + ". " +
+				"(ii-cli) funcs files through the start-up sequence of " + cliRule(tier) + "; " + cliPipeRule(tier) + "; " + cliNamesRule(tier) + "; " + cliSharedRule(tier) + ". " +
 				"non-trivial = both builds compiled without error and at least one context was compared (for funcs: the definition loaded and the inlined body compiled; for cli: both processes exited with success); an outcome is (part, function or body, results)"
 		},
 		Assumptions: func(string) []string {
@@ -254,6 +264,7 @@ func main() {
 				"delivery family: the statement speaks of the file's text, not of how its bytes arrive, so a funcs text that loads from a complete regular file is expected to load identically through a named pipe (one write, pieces, byte by byte) and through any chunking of an io.Reader; only fifos made by syscall.Mkfifo in the scratch directory and readers that return at least one byte per Read are used (no (0, nil) reads, no read errors, no file that grows while it is read - that race cannot be scheduled without timing); the pieces of a pipe delivery are separated by observing FIONREAD == 0 on the pipe, never by sleeping; in-process a load that has not returned after 60 s is reported as a hang and its writer released by opening the pipe O_RDONLY|O_NONBLOCK and draining it",
 				"long-line family: neither the statement nor docs/usage/funcsfile.md bounds the length of a line of a funcs file, so every definition of a generated file whose body compiles inline is expected to be loaded under its own name whatever the length of its physical lines (up to the largest size of the tier); lines end in \\n (no \\r\\n); the one-definition-per-line reference of the other funcs cases does not apply (it would itself be a long line)",
 				"names family (in-process and through the binary): where the statement is silent every reading is accepted, but ONE reading must explain the whole case (the set of loaded names and every call site): (a) a name used inside a body means what it meant when the definition was read (the unchanged tree: an earlier definition calling a name that a later line defines calls the built-in of that name, or is rejected when there is none) or what it means once all files are loaded; (b) of two definitions of one name the last or the first counts. No reading lets a built-in win over a loaded function of the same name, on the command line or in a later definition (the statement makes no exception for such names). The definitions of a file call the name with one argument where the built-in of that name takes one or wants a constant second one (so that the forward reference is accepted); a definition whose body, inlined down to built-ins, the built-in table refuses is expected not to load; defined names contain no blank, '#', quote or brace; a call site whose inlined form cannot be written (text as an argument) or is refused by the built-in table is not compared",
+				"shared-text family (in-process and through the binary): the statement's 'the body with {0}, {1}, .. replaced by the call's arguments' is taken per occurrence - the same argument text in two definitions is two independent bodies, each with its own {0} and, for a helper the file defines twice, its own meaning of the name under ONE of the names family's 4 resolution policies for the whole case; what the documentation declares remembered ({time}/{buckettime} without a format: 'The first seen date will determine the format for all dates going forward') is kept out of the oracle's way: a definition is only ever called with one column and a column holds one notation in every row, so the function's occurrence of the text and the inlined body's see the same single notation; users do not call users (a user's body instance is reached from the command line only)",
 				"cli part: the rare binary is built once per run by this harness (`go build -o <tmp>/rare .` in $VERIF_REPO, default /repo; a failed build is a harness error) and removed afterwards; every process gets an explicit environment (PATH, HOME=<scratch>, TZ=UTC, GOMAXPROCS=1, LANG=C and RARE_FUNC_FILES only when that is the delivery) and pipes for stdout/stderr, so colour is off unless --color is given (the terminal default, colour on, is not reachable without a pty); standard error (log lines of rejected definitions, compile errors) is not compared, only stdout and exit success; a process that has not exited after 60 s is reported as a hang",
 				"part (iii) of the statement (concurrent evaluators) is not covered here",
 				"in-process parts: process globals pinned: TZ=UTC, color.Enabled=true, humanize.Enabled=true, termunicode.UnicodeEnabled=true, stdlib.DisableLoad=false, funclib.Additional emptied after every funcs case",
